@@ -323,16 +323,11 @@ fn c18_flag_not_consulted_elsewhere() {
 }
 
 // -------------------------------------------------------------- C01/C04 H-lit: literal values
-/// hex / decimal literals of up to 3 symbolic digit characters (after the prefix): value == numeric value
-/// (two's complement for negatives), accepted iff within 16 bits
-#[kani::proof]
-#[kani::unwind(8)]
-#[kani::stub(alloc::fmt::format, stubs::fmt_format)]
-#[kani::stub(Cursor::check_instruction, Cursor::check_instruction_any)]
-#[kani::stub(Cursor::check_trap, Cursor::check_trap_any)]
-fn c01_literal_values() {
-    let hex: bool = kani::any();
-    let neg: bool = kani::any();
+/// hex / decimal literals of 1..3 symbolic digit characters (after the prefix and optional '-'):
+/// value == numeric value (two's complement for negatives), token spans the whole literal.
+/// Prefix and sign are constants of each harness (a symbolic first character would make every arm of
+/// advance_token feasible for the symbolic executor).
+fn literal_body(hex: bool, neg: bool) {
     let nd: usize = kani::any();
     kani::assume(nd >= 1 && nd <= 3);
     let d: [u8; 3] = kani::any();
@@ -376,6 +371,22 @@ fn c01_literal_values() {
             assert!(false, "in-range literal rejected");
         }
     }
-    kani::cover!(hex && neg && nd == 3);
-    kani::cover!(!hex && !neg && val == 999);
+    kani::cover!(nd == 3 && val != 0);
+    kani::cover!(nd == 1);
 }
+macro_rules! literal {
+    ($name:ident, $hex:expr, $neg:expr) => {
+        #[kani::proof]
+        #[kani::unwind(8)]
+        #[kani::stub(alloc::fmt::format, stubs::fmt_format)]
+        #[kani::stub(Cursor::check_instruction, Cursor::check_instruction_any)]
+        #[kani::stub(Cursor::check_trap, Cursor::check_trap_any)]
+        fn $name() {
+            literal_body($hex, $neg);
+        }
+    };
+}
+literal!(c01_literal_hex, true, false);
+literal!(c01_literal_hex_neg, true, true);
+literal!(c01_literal_dec, false, false);
+literal!(c01_literal_dec_neg, false, true);
